@@ -106,6 +106,12 @@ func vCheckErrPos(q string, err error) {
 			}
 		}
 		vAssert(ok, "C17/L1-syntax-error-position-is-not-a-token-start")
+		// independent of the library's own lexer: a token never starts at a blank, and it starts
+		// at a boundary (first byte, after a delimiter, or at a delimiter)
+		if e.Pos > 0 && e.Pos < len(q) {
+			vAssert(q[e.Pos] != ' ', "C17/L1-syntax-error-position-is-a-blank")
+			vAssert(vOr(vIsDelim(q[e.Pos-1]), vIsDelim(q[e.Pos])), "C17/L1-syntax-error-position-is-inside-a-word")
+		}
 		vAssert(e.Pos >= -1 && e.Pos < len(q) || e.Pos == 0, "C17/L1-position-outside-the-query")
 	case *ExecuteError:
 		vAssert(e.Pos >= -1 && (e.Pos < len(q) || e.Pos == 0), "C17/L1-position-outside-the-query")
@@ -164,8 +170,16 @@ func VH_C17_L1(si, lead, edit int) {
 		q = base[:t.Pos] + base[end:]
 	case 1: // replace it by a stray operator
 		q = base[:t.Pos] + "^=" + base[end:]
-	default: // duplicate it
+	case 2: // duplicate it
 		q = base[:end] + " " + base[t.Pos:]
+	case 3: // a blank typed into the token (two-character operators, words, literals)
+		if end-t.Pos < 2 {
+			return
+		}
+		mid := t.Pos + (end-t.Pos)/2
+		q = base[:mid] + vSpaces(1+lead%2) + base[mid:]
+	default: // replace it by one or two arbitrary bytes, one representative per lexer class
+		q = base[:t.Pos] + vNondetString("r", 1, 2, vLexAlpha11) + base[end:]
 	}
 	q = vSpaces(lead) + q
 	st := vNewStoreFrom([][]byte{[]byte("k1")}, [][]byte{[]byte("{\"x\":1}")})
